@@ -2,6 +2,7 @@
 import os
 import shutil
 import tempfile
+from fractions import Fraction
 
 from vlib import basic
 
@@ -22,8 +23,9 @@ EXPLANATION = ('theorems (PcbV.Props.C26) by induction over arbitrary statement 
                'shadow built only from the observed success/failure of statements, judged by the statement text')
 TRUSTED_BASE = ['model PcbV.Model.Locks is a hand transcription of diskfiles.py:Locks and of the Files/RandomFile/'
                 'TextFile callers (file-number checks, lock limits, record pointer)']
-ASSUMPTIONS = ['record numbers used are exactly representable in single precision (the to_single rounding of '
-               '_get_lock_limits/_check_pos is not modelled)',
+ASSUMPTIONS = ['integer record numbers used are exactly representable in single precision; fractional ones are small '
+               'decimals whose single-precision value rounds like the decimal itself (x.5 is exact); the model '
+               'rounds record numbers half-to-even (PcbV.Locks.roundHalfEven), as GET/PUT do on HEAD',
                'for sequential files LOCK/UNLOCK affect the whole file regardless of the range (GW-BASIC manual); '
                'the oracle normalises their ranges to the whole file',
                'the temp-dir files exist and are writable, so OPEN fails only for sharing reasons']
@@ -97,6 +99,49 @@ def name_id(name):
 # ---------------------------------------------------------------------------------------------
 # Session level
 
+def rnd(v):
+    """The record a (possibly fractional) record-number value denotes: nearest integer, halves to even -
+    what GET/PUT do (`round()` of the single-precision value in Files._check_pos); the statement's
+    'record inside a locked range' only makes sense if LOCK/UNLOCK and GET/PUT agree on it."""
+    if v is None or isinstance(v, int):
+        return v
+    return int(round(v))     # round(Fraction) rounds halves to even
+
+
+def dec_text(v):
+    """Decimal text of a Fraction with at most two decimals."""
+    t = ('%.2f' % float(v)).rstrip('0')
+    return t + '0' if t.endswith('.') else t
+
+
+def num_text(v, pick, idx=0):
+    """(prefix statements, expression text) for a record number; fractional values come as single/double
+    literals, variables and expressions."""
+    if isinstance(v, int):
+        return b'', b'%d' % v
+    t = dec_text(v).encode()
+    form = pick(7)
+    if form == 0:
+        return b'', t
+    if form == 1:
+        return b'', (t[1:] if t.startswith(b'0.') else t + b'#')
+    if form == 2:
+        name = [b'X!', b'Y!'][idx]
+        return name + b'=' + t + b':', name
+    if form == 3:
+        name = [b'D#', b'E#'][idx]
+        return name + b'=' + t + b':', name
+    if form == 4:
+        if (v * 2).denominator == 1:
+            return b'', b'(%d/2)' % int(v * 2)
+        k = int(v)
+        return b'', b'(%d+%s)' % (k, dec_text(v - k).encode()[1:])
+    if form == 5:
+        return b'', b'CSNG(' + t + b')'
+    name = [b'P', b'Q'][idx]      # default (single) type variable
+    return name + b'=' + t + b':', name
+
+
 def enc_cmd(c):
     k = c[0]
     d = lambda v: '-' if v is None else str(v)
@@ -141,14 +186,20 @@ def stmt(c, rng_choice):
         if s is None and e is None:
             return t
         t += b', '
+        pre = b''
         if s is not None:
-            t += b'%d' % s
+            p1, x = num_text(s, rng_choice, 0)
+            pre += p1
+            t += x
         if e is not None:
-            t += b' TO %d' % e
-        return t
+            p2, x = num_text(e, rng_choice, 1)
+            pre += p2
+            t += b' TO ' + x
+        return pre + t
     t = (b'GET ' if k == 'g' else b'PUT ') + b'#%d' % c[1]
     if c[2] is not None:
-        t += b', %d' % c[2]
+        pre, x = num_text(c[2], rng_choice, 0)
+        t = pre + t + b', ' + x
     return t
 
 
@@ -210,6 +261,7 @@ def lock_limits(s, e):
     """Valid bounds of a LOCK/UNLOCK statement -> range; 'bad' if out of the accepted domain."""
     if s is None and e is None:
         return None
+    s, e = rnd(s), rnd(e)
     s1 = 1 if s is None else s
     e1 = s1 if e is None else e
     if not (1 <= s1 <= 2 ** 25 - 2 and 1 <= e1 <= 2 ** 25 - 2):
@@ -285,7 +337,7 @@ def judge(ctx, sh, c, err, impl_held, hist, max_files):
                 else:
                     ctx.count('oracle:unlock-refused')
     elif k in ('g', 'p'):
-        num, pos = c[1], c[2]
+        num, pos = c[1], rnd(c[2])
         f = sh.open.get(num)
         if f is not None and f['mode'] == 'R':
             rec = pos if pos is not None else f['next']
@@ -386,7 +438,7 @@ def gen_range(rng, used):
 
 def representable(v):
     """Nearest lower value that single precision holds exactly (record numbers pass through to_single)."""
-    if v is None:
+    if v is None or not isinstance(v, int):
         return v
     if v > 2 ** 25:
         return v - v % 4
@@ -395,10 +447,53 @@ def representable(v):
     return v
 
 
+FRACS = ['.5', '.49', '.51']
+
+
+def fractional(rng, v):
+    """A fractional value next to the record number v (exactly halfway, just below, just above)."""
+    k = v - 1 if v >= 1 and rng.random() < 0.4 else v
+    return Fraction('%d%s' % (k, rng.choice(FRACS + ['.5'])))
+
+
+def fractionalise(rng, cmds, prob=0.1):
+    """Replace some small integer record numbers of LOCK/UNLOCK/GET/PUT by fractional values."""
+    out = []
+    for c in cmds:
+        if c[0] in ('l', 'u', 'g', 'p'):
+            c = c[:2] + tuple(fractional(rng, v) if isinstance(v, int) and 0 <= v <= 60 and rng.random() < prob
+                              else v for v in c[2:])
+        out.append(c)
+    return out
+
+
 def gen_history(rng, max_files):
     profile, cmds = gen_history_raw(rng, max_files)
-    return profile, [c if c[0] in ('o', 'c', 'ca') else c[:2] + tuple(representable(v) for v in c[2:])
-                     for c in cmds]
+    cmds = [c if c[0] in ('o', 'c', 'ca') else c[:2] + tuple(representable(v) for v in c[2:]) for c in cmds]
+    return profile, fractionalise(rng, cmds)
+
+
+def fractional_family(rng, max_files, thorough):
+    """LOCK n through one file number, then GET n / PUT n / LOCK n with the same value n, and the integers
+    next to it, through a second number; UNLOCK with the neighbours and with n; the same with n as the stop
+    of a range.  n runs over k.5 (even and odd k), k.49, k.51 including 0.5 / 0.49 / 0.51."""
+    ks = list(range(0, 13)) if thorough else [0, 1, 2, 3, 6, 7]
+    nums = list(range(1, max_files + 1))
+    for k in ks:
+        for f in FRACS:
+            x = Fraction('%d%s' % (k, f))
+            y = x + 3
+            a, b = rng.sample(nums, 2)
+            lt = rng.choice(['S', None])
+            cmds = [('o', 0, a, 'R', None, lt), ('o', 0, b, 'R', None, lt),
+                    ('l', a, x, None), ('g', b, x), ('p', b, x), ('g', b, k), ('g', b, k + 1), ('g', b, None),
+                    ('l', b, x, None), ('u', b, x, None), ('l', b, k, None), ('u', b, k, None),
+                    ('l', b, k + 1, None), ('u', b, k + 1, None),
+                    ('u', a, k, None), ('u', a, k + 1, None), ('u', a, x, None),
+                    ('l', a, k + 1, y), ('g', b, y), ('p', b, k + 3), ('g', b, k + 4), ('l', b, y, None),
+                    ('u', b, y, None), ('l', b, k + 4, y + 2), ('u', b, k + 4, y + 2),
+                    ('u', a, k + 1, k + 3), ('u', a, k + 1, k + 4), ('u', a, k + 1, y), ('ca',)]
+            yield 'fractional-family', cmds
 
 
 def gen_multi(rng, max_files, n):
@@ -584,7 +679,7 @@ def run_history(ctx, impl, cmds, spell_rng, judge_it=True):
 
 def dec_cmd(w):
     p = w.split(':')
-    o = lambda v: None if v == '-' else int(v)
+    o = lambda v: None if v == '-' else (Fraction(v) if '/' in v else int(v))
     if p[0] == 'o':
         return ('o', int(p[1]), int(p[2]), p[3], None if p[4] == '-' else p[4], None if p[5] == '-' else p[5])
     if p[0] == 'c':
@@ -649,6 +744,7 @@ def session_level(ctx, n_hist):
         lines, outs, cases = [], [], []
         todo = [('fixed', h) for h in FIXED_HISTORIES]
         todo += list(multi_handle_family(rng, impl.max_files, all_perms=not ctx.quick))
+        todo += list(fractional_family(rng, impl.max_files, thorough=not ctx.quick))
         for _ in range(n_hist):
             todo.append(gen_history(rng, impl.max_files))
         for profile, cmds in todo:
